@@ -70,7 +70,7 @@ def AllFit64Bin (m : Int) : BinOp → Int → Int → Prop
   | .sub, a, b => fits64 a ∧ fits64 b ∧ fits64 (a - b)
   | .mul, a, b => fits64 a ∧ fits64 b ∧ fits64 (a * b)
   | .div, a, b => fits64 a ∧ fits64 b ∧ b ≠ 0 ∧ fits64 (a * m) ∧ fits64 ((a * m).tdiv b)
-  | .mod, a, b => fits64 a ∧ fits64 b ∧ b ≠ 0 ∧ fits64 (a * m) ∧ fits64 ((a * m).tdiv b)
+  | .mod, a, b => fits64 a ∧ fits64 b ∧ b ≠ 0   -- no intermediate product: every common operand pair
   | .min, a, b => fits64 a ∧ fits64 b
   | .max, a, b => fits64 a ∧ fits64 b
 
@@ -107,7 +107,7 @@ theorem F64.runBin_eq {m : Int} (hm : Mult m) (op : BinOp) (a b : Int) (h : AllF
   · rw [F64.sub_exact h.2.2]
   · rw [F64.mul_eq hm h.2.2]; rfl
   · rw [F64.div_eq h.2.2.1 h.2.2.2.1 h.2.2.2.2]; rfl
-  · rw [F64.mod_eq hm h.1 h.2.2.1 h.2.2.2.1 h.2.2.2.2]
+  · rw [F64.mod_tmod h.1 h.2.2]
   · rw [F64.min_eq]
   · rw [F64.max_eq]
 
@@ -119,8 +119,7 @@ theorem F128.runBin_eq {m : Int} (hm : Mult m) (op : BinOp) (a b : Int) (h : All
   · rw [F128.mul_eq hm (fits128_of_fits64 h.2.2)]; rfl
   · rw [F128.div_eq (fits128_of_fits64 h.2.1) h.2.2.1 (fits128_of_fits64 h.2.2.2.1)
       (fits128_of_fits64 h.2.2.2.2)]; rfl
-  · rw [F128.mod_eq hm (fits128_of_fits64 h.1) (fits128_of_fits64 h.2.1) h.2.2.1 (fits128_of_fits64 h.2.2.2.1)
-      (fits128_of_fits64 h.2.2.2.2)]
+  · rw [F128.mod_tmod (fits128_of_fits64 h.1) (fits128_of_fits64 h.2.1) h.2.2]
   · rw [F128.min_eq]
   · rw [F128.max_eq]
 
